@@ -69,3 +69,21 @@ Definition loop_ok (birthday tip steps rewound : Z) (final sugg : list row) (ful
   | _ => false
   end &&
   match fully with Some f => f =? tip | None => false end.
+
+(** suggestions: exactly the stored rows at or above Historic, highest priority first *)
+Definition row_eqb (a b : row) : bool :=
+  let '(s, e, p) := a in let '(s', e', p') := b in (s =? s') && (e =? e') && spec_prio_eqb p p'.
+Definition row_mem (r : row) (l : list row) : bool := existsb (row_eqb r) l.
+Fixpoint rank_desc (l : list row) : bool :=
+  match l with
+  | [] => true
+  | (_, e, p) :: rest =>
+      match rest with
+      | [] => true
+      | (_, e', p') :: _ => (spec_rank p' <? spec_rank p) || ((spec_rank p' =? spec_rank p) && (e' <? e))
+      end && rank_desc rest
+  end.
+Definition sugg_ok (q sugg : list row) : bool :=
+  forallb (fun r => row_mem r q && (spec_rank Historic <=? spec_rank (snd r))) sugg &&
+  forallb (fun r => if spec_rank Historic <=? spec_rank (snd r) then row_mem r sugg else true) q &&
+  rank_desc sugg.
